@@ -240,6 +240,75 @@ def replay_reinforce(tuples, C, viol, samples):
     return nrep
 
 
+def symnco_stage(viol, samples):
+    """SymNCO.shared_step as a whole (the loss FUNCTIONS on given [B, A, S] tensors are replayed from Reinforce.tla above):
+    the REGROUPING of a real step's rollouts.  A stub policy returns, in the layout the library itself produces for
+    augmentation x multi-start (start, augmentation, instance), rewards and log-likelihoods that name (instance, start,
+    augmentation); the stated surrogates are recomputed exactly: L_ps baseline = mean over the augmented copies (same start),
+    L_ss baseline = mean over the starts (same copy), every group inside ONE instance; inference: the reported best is the maximum
+    over all rollouts of the instance; invariance loss: copies of the same instance are compared."""
+    from rl4co.envs import TSPEnv
+    from rl4co.models.zoo.symnco.losses import invariance_loss
+    from rl4co.models.zoo.symnco.model import SymNCO
+
+    n = 0
+    env = TSPEnv(generator_params={"num_loc": 4}, check_solution=False)
+    for (B, S, A) in ((2, 3, 2), (3, 2, 4), (1, 3, 2), (2, 2, 2)):
+        rew = lambda b, s_, a: Fraction(100 * b + 10 * s_ * s_ + 3 * a + (7 * b * s_) % 5)          # noqa: E731
+        lln = lambda b, s_, a: Fraction(1000 + 100 * s_ + 10 * a + b, 1000)                          # noqa: E731  (= -log-lik.)
+
+        class Stub(nn.Module):
+            def __init__(self):
+                super().__init__()
+                self.p = nn.Parameter(torch.zeros(1))
+                self.train_decode_type, self.val_decode_type, self.test_decode_type = "sampling", "greedy", "greedy"
+
+            def forward(self, td, env=None, phase="train", num_starts=0, **kw):
+                rows = td.shape[0] * num_starts
+                idx = [(i // (A * B), (i % (A * B)) // B, i % B) for i in range(rows)]      # (start, augmentation, instance)
+                self.ll = torch.tensor([-float(lln(b, s_, a)) for (s_, a, b) in idx], requires_grad=True)
+                return {"reward": torch.tensor([float(rew(b, s_, a)) for (s_, a, b) in idx]), "log_likelihood": self.ll,
+                        "proj_embeddings": torch.zeros(td.shape[0], 1, 2), "actions": torch.zeros(rows, 4, dtype=torch.long)}
+
+        pol = Stub()
+        m = SymNCO(env, pol, num_augment=A, num_starts=S)
+        m.log_dict = lambda *a, **k: None
+        m.train_metrics = ["loss", "loss_ps", "loss_ss"]
+        m.val_metrics = ["max_aug_reward"]
+        out = m.shared_step(env.generator(B), 0, "train")
+        N = B * A * S
+        mean = lambda xs: sum(xs) / len(xs)                                                           # noqa: E731
+        ps = -sum((rew(b, s_, a) - mean([rew(b, s_, x) for x in range(A)])) * -lln(b, s_, a)
+                  for b in range(B) for s_ in range(S) for a in range(A)) / N
+        ss = -sum((rew(b, s_, a) - mean([rew(b, x, a) for x in range(S)])) * -lln(b, s_, a)
+                  for b in range(B) for s_ in range(S) for a in range(A)) / N
+        bad = []
+        if not near(out["train/loss_ps"], ps, 2e-5):
+            bad.append("problem-symmetricity loss %s, surrogate with the mean over the augmented copies %s" % (float(out["train/loss_ps"]), float(ps)))
+        if not near(out["train/loss_ss"], ss, 2e-5):
+            bad.append("solution-symmetricity loss %s, surrogate with the mean over the starts %s" % (float(out["train/loss_ss"]), float(ss)))
+        o = m.shared_step(env.generator(B), 0, "val")
+        want = mean([max(rew(b, s_, a) for s_ in range(S) for a in range(A)) for b in range(B)])
+        if not near(o["val/max_aug_reward"], want, 1e-6):
+            bad.append("reported best reward (mean over instances) %s, maximum over all rollouts of each instance %s"
+                       % (float(o["val/max_aug_reward"]), float(want)))
+        if B > 1:
+            pe = torch.zeros(A * B, 1, B)
+            for a in range(A):
+                for b in range(B):
+                    pe[a * B + b, 0, b] = 1.0           # instance b points along axis b in every copy: similarity exactly A - 1
+            inv = float(invariance_loss(pe, A))
+            if abs(inv - (A - 1)) > 1e-6:
+                bad.append("invariance loss %s for identical copies of mutually orthogonal instances, expected %d (copies of "
+                           "different instances are compared)" % (inv, A - 1))
+        n += 1
+        if bad:
+            viol.append({"property": "C16", "env": "SymNCO.shared_step", "monitor": "replay-regrouped-surrogate",
+                         "inst": {"batch": B, "num_starts": S, "num_augment": A}, "actions": [], "detail": "; ".join(bad)[:700]})
+    samples.append({"symnco_step": {"configs (B, S, A)": [[2, 3, 2], [3, 2, 4], [1, 3, 2], [2, 2, 2]]}})
+    return n
+
+
 def replay_ppo(tuples, C, viol, samples):
     from rl4co.envs import TSPEnv
     from rl4co.models.rl import PPO
@@ -391,6 +460,7 @@ def run(tier, seed):
     trans += r.generated
     model_viol += r.violated
     nrep += replay_ppo(r.tuples("P"), CP, viol, samples)
+    nrep += symnco_stage(viol, samples)
     # step-wise PPO (buffer, mini-batches) and n-step PPO (returns, bootstrap, value clipping): StepwisePPO.tla / NStepPPO.tla
     from . import c16b
     vb, cb = c16b.violations(tier, seed)
